@@ -131,6 +131,15 @@ KNOWN = [
  ("C03", ("C03.extract_boundary_of_volume", "processing.border.extract_boundary_of_volume", "mismatch:not_closed_consistently_oriented", "tet:cells1:positive:sort=True:warm:faces_given_ascending_winding:face_completion_off"), 'extract_boundary_of_volume copies the winding of the faces as they are stored: when the caller declares the triangles itself (config.complete_faces_from_cells=False, or faces listed in a file) with another winding than the one generated from the cells, the extracted surface is not consistently oriented outwards although every cell is positively oriented (repair = re-orient declared faces from their cell, a behaviour change for the maintainer to decide; enable_boundary_connectivity already orients by a determinant test)', ["thorough"]),
  ("C03", ("C03.extract_boundary_of_volume", "processing.border.extract_boundary_of_volume", "mismatch:not_closed_consistently_oriented", "tet:cells2+:positive:sort=True:fresh:faces_given_ascending_winding:face_completion_off"), 'extract_boundary_of_volume copies the winding of the faces as they are stored: when the caller declares the triangles itself (config.complete_faces_from_cells=False, or faces listed in a file) with another winding than the one generated from the cells, the extracted surface is not consistently oriented outwards although every cell is positively oriented (repair = re-orient declared faces from their cell, a behaviour change for the maintainer to decide; enable_boundary_connectivity already orients by a determinant test)'),
  ("C03", ("C03.extract_boundary_of_volume", "processing.border.extract_boundary_of_volume", "mismatch:not_closed_consistently_oriented", "tet:cells2+:positive:sort=True:warm:faces_given_ascending_winding:face_completion_off"), 'extract_boundary_of_volume copies the winding of the faces as they are stored: when the caller declares the triangles itself (config.complete_faces_from_cells=False, or faces listed in a file) with another winding than the one generated from the cells, the extracted surface is not consistently oriented outwards although every cell is positively oriented (repair = re-orient declared faces from their cell, a behaviour change for the maintainer to decide; enable_boundary_connectivity already orients by a determinant test)', ["thorough"]),
+ ("C18", ("C18.sort.vertex_connection", "SurfaceConnectionVertices.transport", "mismatch:chart_angles", "vertices:sort=False"), 'SurfaceConnectionVertices accumulates the chart angles along connectivity.vertex_to_vertices(u)[::-1], which is the counter-clockwise ring starting on the border only when config.sort_neighborhoods is True; with the documented switch off the chart angles are not the geometric ones, so border constraints and the vertex-based frame field change and depend on the vertex numbering (repair = walk the ring through the half edges, ~15 lines: left to the maintainer)'),
+]
+
+
+# Defects met while building that no check reports (outside every explored domain or not decidable deterministically);
+# documentation only: the runner ignores them.
+NOTED = [
+ ("C18", "smoothing steps of a frame field on a closed surface whose order-n connection is trivial (order 4 on the octahedron's vertices, even orders on the tetrahedron's faces): lap - alpha*A with alpha = first non-zero eigenvalue of the scalar problem is exactly singular; spsolve returns finite garbage or NaN depending on round-off and on ARPACK's start vector (1 of 20 seeds in the default configuration). More generally the smoothing step is an implicit heat step with a negative time step (indefinite matrix); the positive-definite form (lap + alpha*A) is a behaviour change of every smoothed field. These executions are excluded from C18 by a predicate on the independently assembled operator (closed, nothing constrained, n_smooth>0, smallest eigenvalue of the connection Laplacian < 1e-9 x the largest) and counted (excluded_singular_smoothing_system)."),
+ ("C14", "sphere_fibonacci(n, radius < ~4.6e-10) returns a broken triangulation: qhull's 'QJ' joggle has an absolute floor (~6.7e-12), so the joggled hull of a tiny sphere is garbage (repair: take the hull of the unit sample). C14's unit-of-length deviation runs this generator down to 2^-30 only and says so."),
 ]
 
 
@@ -154,6 +163,8 @@ def main():
         if len(row) > 3:
             e["tiers"] = row[3]
         F.append(e)
+    for pid, what in NOTED:
+        F.append({"property": pid, "status": "noted", "what": what})
     doc = {"format": "findings[]: status=known entries carry an exact 4-field fingerprint (subcheck, callee, kind, input_class) + property: the check prints a KNOWN-FINDING line for them and exits 0, any other fingerprint is a VIOLATION; status=fixed entries carry the line required by the interface and suppress nothing",
            "findings": F}
     with open(os.path.join(VERIF, "known_findings.json"), "w") as f:
